@@ -1,1 +1,525 @@
-//! C35: not implemented yet.
+//! C35 — Pool sources are distinct, bounded and respect the ignore list.
+//!
+//! Engine E-SEQ: explicit-state breadth-first search over the REAL `PoolSpawner`
+//! (`ntpd/src/daemon/spawn/pool.rs`). Every transition is a call of the real `try_spawn` /
+//! `handle_source_removed`; the DNS answer of every lookup is chosen by the harness through the
+//! maintainers' `cfg(test)` DNS stub (probe `gl_probe_config_source.rs`).
+//!
+//! Roots   : count in {1,2,3} x ignore in {{}, {A}}            (thorough: + ignore {A,B})
+//! Events  : `S:<d>`   one spawn round (what `spawner_task` does when it holds a ticket and
+//!                      `!is_complete()`); should the round perform a DNS lookup the answer is the
+//!                      list d, d in ALL lists of length <= 3 over {A,B,C,D} WITH repetition
+//!                      (85 lists: empty answer, duplicates, overlaps with active sources and
+//!                      with left-over known addresses, ignored addresses);
+//!           `R:<i>:<r>` the system reports active source #i (creation order) removed for reason
+//!                      r in {D(emobilized), N(etworkIssue), U(nreachable)}.
+//! Depth   : 6 (quick) / 8 (thorough) events, or the fixpoint if the frontier empties earlier.
+//! Key     : (count, ignore, sorted multiset of active addresses as observed on the SpawnEvent
+//!           stream, spawner's `current_sources` addresses sorted, spawner's `known_ips` IN ORDER
+//!           via probe). `known_ips` is kept ordered (finer than the multiset the design names)
+//!           because `pop()` makes behaviour depend on the order; a finer key is always sound.
+//!
+//! Oracle (from the statement, evaluated after every event on the harness' own ledger of
+//! "created on the SpawnEvent stream minus reported removed"):
+//!   * `C35:over-count`               |active| <= count
+//!   * `C35:duplicate-active-address` active addresses pairwise distinct
+//!   * `C35:ignored-address-spawned`  no source is created for an ignored address
+//!   * `C35:panic`                    no panic (would abort the daemon)
+//! A violating state is reported and not expanded further (BFS => first report is shortest).
+use std::collections::BTreeMap;
+use std::net::{IpAddr, Ipv4Addr, Ipv6Addr, SocketAddr};
+
+use ntp_proto::{ClockId, ProtocolVersion, SourceConfig};
+use tokio::sync::mpsc;
+
+use super::common::{self, Ctx};
+use crate::daemon::config::verif_probe::gl::dns::{self as dnsp, DnsScript};
+use crate::daemon::config::PoolSourceConfig;
+use crate::daemon::spawn::pool::verif_probe::gl as poolp;
+use crate::daemon::spawn::pool::PoolSpawner;
+use crate::daemon::spawn::{
+    SourceCreateParameters, SourceRemovalReason, SourceRemovedEvent, SpawnAction, SpawnEvent,
+    Spawner,
+};
+
+const NAMES: [char; 4] = ['A', 'B', 'C', 'D'];
+
+fn addr_of(i: usize) -> SocketAddr {
+    match i {
+        0 => SocketAddr::new(IpAddr::V4(Ipv4Addr::new(127, 0, 0, 1)), 123),
+        1 => SocketAddr::new(IpAddr::V4(Ipv4Addr::new(127, 0, 0, 2)), 123),
+        2 => SocketAddr::new(IpAddr::V4(Ipv4Addr::new(192, 0, 2, 3)), 123),
+        // one IPv6 member so that both families pass through the bookkeeping
+        _ => SocketAddr::new(IpAddr::V6(Ipv6Addr::new(0x2001, 0xdb8, 0, 0, 0, 0, 0, 4)), 123),
+    }
+}
+
+fn idx_of(a: &SocketAddr) -> usize {
+    (0..4).find(|i| addr_of(*i) == *a).unwrap_or(9)
+}
+
+fn name_of(a: &SocketAddr) -> char {
+    let i = idx_of(a);
+    if i < 4 { NAMES[i] } else { '?' }
+}
+
+fn names(v: &[SocketAddr]) -> String {
+    v.iter().map(name_of).collect()
+}
+
+#[derive(Clone, Debug, PartialEq, Eq)]
+enum Ev {
+    Spawn(Vec<usize>),
+    Remove(usize, u8), // index into active (creation order), reason 0=D 1=N 2=U
+}
+
+fn reason_of(r: u8) -> SourceRemovalReason {
+    match r {
+        0 => SourceRemovalReason::Demobilized,
+        1 => SourceRemovalReason::NetworkIssue,
+        _ => SourceRemovalReason::Unreachable,
+    }
+}
+
+fn ev_str(e: &Ev) -> String {
+    match e {
+        Ev::Spawn(d) => format!("S:{}", d.iter().map(|i| NAMES[*i]).collect::<String>()),
+        Ev::Remove(i, r) => format!("R:{}:{}", i, ['D', 'N', 'U'][*r as usize]),
+    }
+}
+
+fn trace_str(count: usize, ign: &[usize], evs: &[Ev]) -> String {
+    let mut s = format!("count={};ignore={}", count, ign.iter().map(|i| NAMES[*i]).collect::<String>());
+    for e in evs {
+        s.push(';');
+        s.push_str(&ev_str(e));
+    }
+    s
+}
+
+fn parse_trace(t: &str) -> Option<(usize, Vec<usize>, Vec<Ev>)> {
+    let mut parts = t.trim().split(';');
+    let count: usize = parts.next()?.strip_prefix("count=")?.parse().ok()?;
+    let ign: Vec<usize> = parts
+        .next()?
+        .strip_prefix("ignore=")?
+        .chars()
+        .map(|c| NAMES.iter().position(|n| *n == c))
+        .collect::<Option<_>>()?;
+    let mut evs = Vec::new();
+    for p in parts {
+        if let Some(d) = p.strip_prefix("S:") {
+            let d: Vec<usize> = d.chars().map(|c| NAMES.iter().position(|n| *n == c)).collect::<Option<_>>()?;
+            evs.push(Ev::Spawn(d));
+        } else if let Some(r) = p.strip_prefix("R:") {
+            let (i, r) = r.split_once(':')?;
+            let r = match r {
+                "D" => 0,
+                "N" => 1,
+                "U" => 2,
+                _ => return None,
+            };
+            evs.push(Ev::Remove(i.parse().ok()?, r));
+        } else if !p.is_empty() {
+            return None;
+        }
+    }
+    Some((count, ign, evs))
+}
+
+/// One explored state: the live spawner + the harness' ledger.
+struct St {
+    count: usize,
+    ign: Vec<usize>,
+    sp: PoolSpawner,
+    dns: DnsScript,
+    /// created on the SpawnEvent stream and not yet reported removed, in creation order
+    active: Vec<(ClockId, SocketAddr)>,
+    evs: Vec<Ev>,
+    violated: bool,
+}
+
+type Key = (usize, Vec<usize>, Vec<usize>, Vec<usize>, Vec<usize>);
+
+fn key_of(s: &St) -> Key {
+    let mut act: Vec<usize> = s.active.iter().map(|(_, a)| idx_of(a)).collect();
+    act.sort();
+    let (cur, known) = poolp::view(&s.sp);
+    let mut cur: Vec<usize> = cur.iter().map(|(_, a)| idx_of(a)).collect();
+    cur.sort();
+    let known: Vec<usize> = known.iter().map(idx_of).collect();
+    (s.count, s.ign.clone(), act, cur, known)
+}
+
+fn root(count: usize, ign: &[usize]) -> St {
+    let (addr, dns) = dnsp::scripted("pool.verif.example", 123);
+    let sp = PoolSpawner::new(
+        PoolSourceConfig {
+            addr: addr.into(),
+            count,
+            ignore: ign.iter().map(|i| addr_of(*i).ip()).collect(),
+            ntp_version: ProtocolVersion::V4,
+        },
+        SourceConfig::default(),
+    );
+    St {
+        count,
+        ign: ign.to_vec(),
+        sp,
+        dns,
+        active: vec![],
+        evs: vec![],
+        violated: false,
+    }
+}
+
+struct Rig {
+    rt: tokio::runtime::Runtime,
+    tx: mpsc::Sender<SpawnEvent>,
+    rx: mpsc::Receiver<SpawnEvent>,
+}
+
+impl Rig {
+    fn new() -> Rig {
+        let rt = tokio::runtime::Builder::new_current_thread()
+            .enable_time()
+            .start_paused(true)
+            .build()
+            .expect("runtime");
+        let (tx, rx) = mpsc::channel(crate::daemon::system::MESSAGE_BUFFER_SIZE);
+        Rig { rt, tx, rx }
+    }
+}
+
+#[derive(Default)]
+struct StepObs {
+    created: Vec<SocketAddr>,
+    lookup_visible: bool,
+    panic: Option<String>,
+}
+
+/// Apply one event to `s` (calls into the real spawner), update the ledger.
+fn apply(rig: &mut Rig, s: &mut St, e: &Ev) -> StepObs {
+    let mut obs = StepObs::default();
+    match e {
+        Ev::Spawn(d) => {
+            let answer: Vec<SocketAddr> = d.iter().map(|i| addr_of(*i)).collect();
+            s.dns.set_next_answer(&answer);
+            let before = s.dns.raw();
+            let tx = &rig.tx;
+            let sp = &mut s.sp;
+            let r = common::catch(|| rig.rt.block_on(sp.try_spawn(tx)));
+            match r {
+                Ok(Ok(())) => {}
+                Ok(Err(_)) => unreachable!("PoolSpawnError is uninhabited"),
+                Err(p) => obs.panic = Some(p),
+            }
+            obs.lookup_visible = s.dns.raw() != before;
+            while let Ok(ev) = rig.rx.try_recv() {
+                let SpawnAction::Create(params) = ev.action;
+                if let SourceCreateParameters::Ntp(p) = params {
+                    s.active.push((p.id, p.addr));
+                    obs.created.push(p.addr);
+                }
+            }
+        }
+        Ev::Remove(i, r) => {
+            let (id, _) = s.active.remove(*i);
+            let sp = &mut s.sp;
+            let ev = SourceRemovedEvent {
+                id,
+                reason: reason_of(*r),
+            };
+            let r = common::catch(|| rig.rt.block_on(sp.handle_source_removed(ev)));
+            if let Err(p) = r {
+                obs.panic = Some(p);
+            }
+        }
+    }
+    s.evs.push(e.clone());
+    obs
+}
+
+/// The statement's invariants on the ledger; returns the violated classes.
+fn judge(s: &St, obs: &StepObs) -> Vec<(&'static str, String)> {
+    let mut out = Vec::new();
+    if let Some(p) = &obs.panic {
+        out.push(("C35:panic", format!("panic in spawner: {p}")));
+    }
+    if s.active.len() > s.count {
+        out.push((
+            "C35:over-count",
+            format!("{} active sources [{}] for count={}", s.active.len(), names(&s.active.iter().map(|x| x.1).collect::<Vec<_>>()), s.count),
+        ));
+    }
+    let mut seen: BTreeMap<SocketAddr, usize> = BTreeMap::new();
+    for (_, a) in &s.active {
+        *seen.entry(*a).or_insert(0) += 1;
+    }
+    if let Some((a, n)) = seen.iter().find(|(_, n)| **n > 1) {
+        out.push((
+            "C35:duplicate-active-address",
+            format!("{n} active sources for address {} ({a}); active = [{}], count={}", name_of(a), names(&s.active.iter().map(|x| x.1).collect::<Vec<_>>()), s.count),
+        ));
+    }
+    for a in &obs.created {
+        if s.ign.iter().any(|i| addr_of(*i).ip() == a.ip()) {
+            out.push((
+                "C35:ignored-address-spawned",
+                format!("source created for ignored address {} ({a})", name_of(a)),
+            ));
+        }
+    }
+    out
+}
+
+fn all_answers(max_len: usize) -> Vec<Vec<usize>> {
+    let mut v = Vec::new();
+    for len in 0..=max_len {
+        for w in common::product(4, len) {
+            v.push(w);
+        }
+    }
+    v
+}
+
+/// One breadth-first exploration. With `tag == ""` violations go to `ctx.violation`; with a tag
+/// (sub-alphabet run) only counters `<tag>...` and the first violating trace (as a note) are kept.
+fn explore(ctx: &Ctx, roots: Vec<St>, answers: &[Vec<usize>], depth: u64, tag: &str) -> common::BfsStats {
+    let mut rig = Rig::new();
+    let mut first_violation_depth: Option<u64> = None;
+    let mut sample_tick = 0u64;
+    let stats = common::bfs(
+        roots,
+        key_of,
+        |s: &St, d: u64| {
+            let mut out = Vec::new();
+            if s.violated {
+                return out;
+            }
+            let mut evs: Vec<Ev> = Vec::new();
+            if !s.sp.is_complete() {
+                for a in answers {
+                    evs.push(Ev::Spawn(a.clone()));
+                }
+            } else {
+                ctx.inc(&format!("{tag}states_complete"));
+            }
+            for i in 0..s.active.len() {
+                for r in 0..3u8 {
+                    evs.push(Ev::Remove(i, r));
+                }
+            }
+            for e in evs {
+                let mut n = St {
+                    count: s.count,
+                    ign: s.ign.clone(),
+                    sp: poolp::fork(&s.sp),
+                    dns: s.dns.clone(),
+                    active: s.active.clone(),
+                    evs: s.evs.clone(),
+                    violated: false,
+                };
+                let obs = apply(&mut rig, &mut n, &e);
+                ctx.inc("evaluations");
+                match &e {
+                    Ev::Spawn(_) => {
+                        ctx.inc(&format!("{tag}spawn_rounds"));
+                        ctx.inc(&format!("{tag}rounds_creating_{}", obs.created.len()));
+                        ctx.add(&format!("{tag}sources_created"), obs.created.len() as u64);
+                        if obs.lookup_visible {
+                            ctx.inc(&format!("{tag}rounds_with_visible_lookup"));
+                        }
+                    }
+                    Ev::Remove(_, r) => {
+                        ctx.inc(&format!("{tag}removals"));
+                        ctx.inc(&format!("{tag}removals_reason_{}", ['D', 'N', 'U'][*r as usize]));
+                    }
+                }
+                let (_, known) = poolp::view(&n.sp);
+                ctx.max(&format!("{tag}known_ips_max_len"), known.len() as u64);
+                let mut k2 = known.clone();
+                k2.sort();
+                k2.dedup();
+                if k2.len() != known.len() {
+                    ctx.inc(&format!("{tag}transitions_leaving_duplicate_in_known_ips"));
+                }
+                if n.active.len() == n.count {
+                    ctx.inc(&format!("{tag}transitions_into_full_pool"));
+                }
+                let verdicts = judge(&n, &obs);
+                if !verdicts.is_empty() {
+                    n.violated = true;
+                    let tr = trace_str(n.count, &n.ign, &n.evs);
+                    if first_violation_depth.is_none() {
+                        first_violation_depth = Some(d + 1);
+                        ctx.set(&format!("{tag}first_violation_depth"), d + 1);
+                        if !tag.is_empty() {
+                            ctx.note(
+                                &format!("{tag}shortest_violating_trace"),
+                                &format!("{} => {} ({})", tr, verdicts[0].0, verdicts[0].1),
+                            );
+                        }
+                    }
+                    for (class, what) in verdicts {
+                        if tag.is_empty() {
+                            ctx.violation(class, what, tr.clone());
+                        } else {
+                            ctx.inc(&format!("{tag}violating_transitions"));
+                        }
+                    }
+                }
+                if tag.is_empty() {
+                    ctx.distinct(common::hash_of(&key_of(&n)));
+                    if n.evs.len() >= 4 && !obs.created.is_empty() && n.evs.iter().any(|e| matches!(e, Ev::Remove(..))) {
+                        sample_tick += 1;
+                        if sample_tick % 1201 == 1 {
+                            ctx.sample(format!(
+                                "{} => active [{}], known [{}]",
+                                trace_str(n.count, &n.ign, &n.evs),
+                                names(&n.active.iter().map(|x| x.1).collect::<Vec<_>>()),
+                                names(&known)
+                            ));
+                        }
+                    }
+                }
+                out.push(n);
+            }
+            out
+        },
+        depth,
+    );
+    stats
+}
+
+fn replay(ctx: &Ctx, trace: &str) -> String {
+    let Some((count, ign, evs)) = parse_trace(trace) else {
+        return format!("unparsable trace {trace:?}");
+    };
+    let mut rig = Rig::new();
+    let mut s = root(count, &ign);
+    let mut out = String::new();
+    for e in &evs {
+        if let Ev::Remove(i, _) = e {
+            if *i >= s.active.len() {
+                out.push_str(&format!("{} -> no such active source; stop", ev_str(e)));
+                break;
+            }
+        }
+        if let Ev::Spawn(_) = e {
+            if s.sp.is_complete() {
+                out.push_str(&format!("{} -> skipped (spawner complete, the task would not call try_spawn) | ", ev_str(e)));
+                continue;
+            }
+        }
+        let obs = apply(&mut rig, &mut s, e);
+        let (_, known) = poolp::view(&s.sp);
+        out.push_str(&format!(
+            "{} -> created [{}] active [{}] known [{}] | ",
+            ev_str(e),
+            names(&obs.created),
+            names(&s.active.iter().map(|x| x.1).collect::<Vec<_>>()),
+            names(&known)
+        ));
+        for (class, what) in judge(&s, &obs) {
+            ctx.violation(class, what.clone(), trace);
+            out.push_str(&format!("VIOLATION {class}: {what} | "));
+        }
+    }
+    out
+}
+
+#[test]
+fn check() {
+    let ctx = Ctx::new("C35");
+    if let Some(t) = common::replay_trace() {
+        let a = replay(&ctx, &t);
+        let b = replay(&ctx, &t);
+        common::report_replay("C35", &a, &b, ctx.violation_count() > 0);
+        return;
+    }
+    let quick = ctx.quick();
+    let depth: u64 = if quick { 6 } else { 8 };
+    ctx.rule(&format!(
+        "explicit-state BFS on the real PoolSpawner from roots count in {{1,2,3}} x ignore in {{{{}},{{A}}{}}}; \
+         events: S:<d> = one spawn round whose DNS lookup (if the round performs one) answers d, d over ALL 85 lists \
+         of <=3 addresses from {{A,B,C,D}} with repetition, enabled when !is_complete() exactly as spawner_task does; \
+         R:<i>:<r> = removal of active source i for reason r in {{D,N,U}}; depth <= {depth} or fixpoint. \
+         A state is distinct by (count, ignore, multiset of active addresses, spawner's current_sources, spawner's \
+         known_ips in order); non-trivial = reached by >=1 event. Violating states are reported, not expanded.",
+        if quick { "" } else { ",{A,B}" }
+    ));
+    ctx.assume("the cfg(test) DNS stub (HardcodedDnsResolve) stands for tokio::net::lookup_host: answers are always Ok(list); the Err(lookup failed) branch of try_spawn is not reachable through the stub (it returns before touching any state)");
+    ctx.assume("the system reports a removal only for a source it created from this spawner's SpawnEvent and reports it once (system.rs removes the source from its table before notifying)");
+    ctx.assume("NtsPoolSpawner (nts_pool.rs) is NOT exercised: every round needs a TCP connect + TLS key exchange with a pool KE server; see notes/gl.md");
+
+    let answers = all_answers(3);
+    let mut ignores: Vec<Vec<usize>> = vec![vec![], vec![0]];
+    if !quick {
+        ignores.push(vec![0, 1]);
+    }
+    let mut roots = Vec::new();
+    for count in 1..=3usize {
+        for ign in &ignores {
+            roots.push(root(count, ign));
+        }
+    }
+    ctx.set("roots", roots.len() as u64);
+    ctx.set("dns_answers_per_round", answers.len() as u64);
+
+    let main = explore(&ctx, roots, &answers, depth, "");
+    ctx.set("states", main.states);
+    ctx.set("transitions", main.transitions);
+    ctx.set("max_depth", main.max_depth);
+    ctx.set("fixpoint_reached", main.fixpoint as u64);
+    ctx.note(
+        "bound",
+        &if main.fixpoint {
+            format!("frontier emptied at depth {}: every history of ANY length over this alphabet stays inside the {} explored states", main.max_depth, main.states)
+        } else {
+            format!("all histories of <= {depth} events (deduplicated on the state key)")
+        },
+    );
+
+    // Second search over the sub-alphabet of duplicate-free DNS answers (41 of the 85 lists). It is
+    // a subset of the search above and adds no coverage; its only purpose is to produce the shortest
+    // counterexample in which the resolver itself never repeats an address inside one answer.
+    let nodup: Vec<Vec<usize>> = answers
+        .iter()
+        .filter(|a| {
+            let mut b = (*a).clone();
+            b.sort();
+            b.dedup();
+            b.len() == a.len()
+        })
+        .cloned()
+        .collect();
+    ctx.set("nodup_dns_answers_per_round", nodup.len() as u64);
+    let mut roots2 = Vec::new();
+    for count in 1..=3usize {
+        for ign in &ignores {
+            roots2.push(root(count, ign));
+        }
+    }
+    let sub = explore(&ctx, roots2, &nodup, depth.max(7), "nodup_");
+    ctx.set("nodup_states", sub.states);
+    ctx.set("nodup_transitions", sub.transitions);
+    ctx.set("nodup_fixpoint_reached", sub.fixpoint as u64);
+
+    // determinism: replay a handful of fixed traces twice
+    for t in [
+        "count=2;ignore=;S:ABC;R:0:N;R:0:U;S:BA;R:1:D;S:",
+        "count=3;ignore=A;S:AAB;S:CD;R:1:U;S:DDA",
+        "count=1;ignore=;S:;S:D;R:0:D;S:DD",
+    ] {
+        let tmp = Ctx::new("C35");
+        let a = replay(&tmp, t);
+        let b = replay(&tmp, t);
+        ctx.inc("determinism_replays");
+        if a != b {
+            ctx.violation("C35:harness-nondeterminism", format!("two replays differ: {a} vs {b}"), t);
+        }
+    }
+    ctx.exhaustive(true);
+    ctx.finish();
+}
